@@ -198,7 +198,12 @@ func c06(r *core.Run) {
 	if r.Prop == "C06" {
 		ex := r.Explain
 		r.Under("C08.PREFILTER", "C06.PREFILTER", func() { c08Prefilter(r) })
-		r.Explain = ex
+		// index lookups probe exactly the entries of the asked-for hash (reader/writer key agreement of C05)
+		un, as := r.Undecided, r.Assume
+		r.Filter = func(o *core.Obligation) bool { return o.Rule == "C05.KEYAGREE" }
+		r.Under("C05.KEYAGREE", "C06.KEYAGREE", func() { c05(r) })
+		r.Filter = nil
+		r.Explain, r.Undecided, r.Assume = ex, un, as
 	}
 	// records decoded in a loop (rebuild, batch add, scans) must not inherit fields of the previous record
 	c18FreshTarget(r, "C06.FRESH")
